@@ -143,8 +143,20 @@ Record next_case := mkNextCase {
   nc_t : Z;                      (* unix second (floor) of the argument of Next *)
   nc_obs : option Z }.           (* unix second of the result; None = zero time *)
 
+(* The model is run with 2^22 loop tests instead of next_model's 2^34: every result it
+   reaches is next_model's result (Proofs_Ref.next_model_fuel_result), and a model that spins
+   (day-skip shape) costs minutes instead of days. *)
+Definition check_fuel : nat := 22.
+
+Definition next_model_fuel (n : nat) (b : bits6) (z : zone) (t : Z) : next_result :=
+  let t1 := t + 1 in
+  match iter_pow2 b z (w_year (fields z t1) + 5) n (mkSt PWrap t1 false) with
+  | inl _ => OutOfFuel
+  | inr r => r
+  end.
+
 Definition next_model_out (c : next_case) : next_result :=
-  next_model (nc_bits c) (nc_zone c) (nc_t c).
+  next_model_fuel check_fuel (nc_bits c) (nc_zone c) (nc_t c).
 
 Definition next_spec_out (c : next_case) : option Z :=
   next_ref_fast (dsched_of_bits (nc_bits c)) (nc_zone c) (nc_t c).
@@ -167,14 +179,47 @@ Definition next_result_eqb (x y : next_result) : bool :=
 (* the oracle: the observed value is what the documented meaning demands *)
 Definition next_oracle (c : next_case) : bool := option_Z_eqb (nc_obs c) (next_spec_out c).
 
+(* 0: the observation is the specification's value and the model's value.
+   1: it is the specification's value but not the model's.
+   2: it is NOT the specification's value, and the faithful model does the same as the
+      implementation - the recorded defect as modelled (may match a known finding).
+   3: it is NOT the specification's value and the model does something else - never a known
+      finding. *)
 Definition check_next (c : next_case) : Z :=
-  if negb (next_oracle c) then 2
-  else if negb (next_result_eqb (next_model_out c) (result_of_option (nc_obs c))) then 1
+  let agrees := next_result_eqb (next_model_out c) (result_of_option (nc_obs c)) in
+  if negb (next_oracle c) then (if agrees then 2 else 3)
+  else if negb agrees then 1
   else 0.
 
 Definition check_next_case (sec min hour dom month dow : N) (z : zone) (t : Z)
     (observed : option Z) : Z :=
   check_next (mkNextCase (mkBits sec min hour dom month dow) z t observed).
+
+(* A call of Next that did NOT return (harness: no result within its deadline; the
+   specification always demands a result or the zero time, so this is an oracle failure by
+   itself). The model "does the same" when it reaches, within 2^15 loop tests, a state that
+   one more test maps to itself - then it never leaves it and next_model is OutOfFuel
+   (Proofs_Ref.model_stuck_sound). 2: the model is stuck too (the recorded day-skip defect as
+   modelled); 3: it is not. *)
+Definition st_eqb (a b : st) : bool :=
+  (match s_pc a, s_pc b with
+   | PWrap, PWrap | PMonth, PMonth | PDay, PDay | PHour, PHour | PMinute, PMinute
+   | PSecond, PSecond => true
+   | _, _ => false
+   end) && (s_t a =? s_t b) && Bool.eqb (s_added a) (s_added b).
+
+Definition stuck_fuel : nat := 15.
+
+Definition model_stuck (b : bits6) (z : zone) (t : Z) : bool :=
+  let t1 := t + 1 in
+  let lim := w_year (fields z t1) + 5 in
+  match iter_pow2 b z lim stuck_fuel (mkSt PWrap t1 false) with
+  | inl s => match step b z lim s with inl s' => st_eqb s' s | inr _ => false end
+  | inr _ => false
+  end.
+
+Definition check_next_hang_case (sec min hour dom month dow : N) (z : zone) (t : Z) : Z :=
+  if model_stuck (mkBits sec min hour dom month dow) z t then 2 else 3.
 
 (* the table conditions under which [next_ref_fast] is proved equal to [next_ref];
    a harness should assert this is [true] for every table it prints *)
